@@ -89,6 +89,57 @@ package httpserver
 //@   ensures [commit_at_most_once] wh <= old(wh) + 1 && (old(rb.wroteHeader) ==> wh == old(wh))
 //@   ensures [implicit_200] !old(rb.wroteHeader) ==> rb.status == 200
 
+//@ unit redirect_handler props=C15 filter=`httpserver\.redirPlaintextHost\$1\$1$`
+//@ // the handler of a synthesised HTTP site: a permanent redirect to https on the same host (port stripped, the configured
+//@ // HTTPS port appended unless it is the default), same request URI (escaped path and query exactly as received)
+//@ extern (*net/url.URL).RequestURI
+//@   pure
+//@ extern net.SplitHostPort
+//@   pure
+//@ extern net.JoinHostPort
+//@   pure
+//@ extern invoke:(net/http.ResponseWriter).Header
+//@   ensures result != nil
+//@ extern (net/http.Header).Set
+//@ extern net/http.Redirect
+//@ define splitFails() bool = ret(2, net.SplitHostPort(r.Host)) != nil
+//@ define hostPart() string = ret(0, net.SplitHostPort(r.Host))
+//@ func redirPlaintextHost$1$1
+//@   requires r != nil && r.URL != nil && w != nil
+//@   at call net/http.Redirect assert [permanent] arg3 == 301
+//@   at call net/http.Redirect assert [location_bare_host_default_port] (redirPort == "" && splitFails()) ==> arg2 == "https://" + r.Host + r.URL.RequestURI()
+//@   at call net/http.Redirect assert [location_host_default_port] (redirPort == "" && !splitFails()) ==> arg2 == "https://" + hostPart() + r.URL.RequestURI()
+//@   at call net/http.Redirect assert [location_bare_host_custom_port] (redirPort != "" && splitFails()) ==> arg2 == "https://" + net.JoinHostPort(r.Host, redirPort) + r.URL.RequestURI()
+//@   at call net/http.Redirect assert [location_host_custom_port] (redirPort != "" && !splitFails()) ==> arg2 == "https://" + net.JoinHostPort(hostPart(), redirPort) + r.URL.RequestURI()
+//@   ensures [written] result0 == 0
+
+//@ unit make_servers_tls_off props=C15 filter=`httpserver\.httpContext\)\.MakeServers$`
+//@ // "sites declared as plain HTTP never have TLS enabled": after MakeServers no site on the HTTP port or with scheme http has TLS on
+//@ extern strconv.Itoa
+//@   pure
+//@ extern github.com/tmpim/casket.IsLoopback
+//@   pure
+//@ extern github.com/tmpim/casket.IsInternal
+//@   pure
+//@ extern github.com/tmpim/casket/caskettls.QualifiesForManagedTLS
+//@   pure
+//@ extern github.com/caddyserver/certmagic.SubjectQualifiesForPublicCert
+//@   pure
+//@ extern fmt.Errorf
+//@   ensures result != nil
+//@ func groupSiteConfigsByListenAddr
+//@ func NewServer
+//@ define sc(k int) *SiteConfig = h.siteConfigs[k]
+//@ define plainHTTP(k int) bool = sc(k).Addr.Port == strconv.Itoa(certmagic.HTTPPort) || sc(k).Addr.Scheme == "http"
+//@ func (*httpContext).MakeServers
+//@   requires h != nil && strconv.Itoa(certmagic.HTTPPort) != strconv.Itoa(certmagic.HTTPSPort) && strconv.Itoa(certmagic.HTTPPort) != ""
+//@   requires forall(k, 0, len(h.siteConfigs), sc(k) != nil && sc(k).TLS != nil && sc(k).TLS.Manager != nil)
+//@   modifies Config.Enabled, Address.Scheme, Address.Port
+//@   ensures [http_sites_plaintext] result1 == nil ==> forall(k, 0, len(h.siteConfigs), plainHTTP(k) ==> !sc(k).TLS.Enabled)
+//@   loop 1 invariant 0 <= #i && #i <= len(h.siteConfigs) && h != nil && httpPort == strconv.Itoa(certmagic.HTTPPort) && httpsPort == strconv.Itoa(certmagic.HTTPSPort)
+//@   loop 1 invariant forall(k, 0, len(h.siteConfigs), sc(k) != nil && sc(k).TLS != nil && sc(k).TLS.Manager != nil)
+//@   loop 1 invariant [processed_plain_sites_off] forall(k, 0, #i, plainHTTP(k) ==> !sc(k).TLS.Enabled)
+
 //@ unit match_host props=C01 filter=`vhostTrie\)\.matchHost$`
 //@ spec nparts(s string, sep string) int
 //@ spec part(s string, sep string, j int) string
